@@ -237,6 +237,60 @@ func jobC11(c *rt.Ctx) {
 			c.Violation(fmt.Sprintf("C11 basepoint-reslice wantErr=%v", wantErr), fmt.Sprintf("X25519(s, Basepoint[:%d]) = %x, %v", hi, out, err), map[string]interface{}{"len": hi})
 		}
 	}
+	// constructed outputs: for every byte position i a result whose ONLY non-zero byte is byte i
+	// (a sparse u in a prime-order subgroup of the curve or of the twist, and P = [s^-1]u): the
+	// low-order rejection must look at every byte of the result
+	c.Require("sparse-output")
+	twistL := ref.TwistSubgroupOrder()
+	for pos := 0; pos < 32; pos++ {
+		for variant := 0; variant < 2; variant++ {
+			if !c.Take() {
+				continue
+			}
+			c.Class("sparse-output")
+			c.Distinct(fmt.Sprintf("sparse %d %d", pos, variant), true)
+			var target, order *big.Int
+			found := 0
+			for v := int64(1); v < 256 && target == nil; v++ {
+				if pos == 31 && v >= 128 {
+					break
+				}
+				u := new(big.Int).Lsh(big.NewInt(v), uint(8*pos))
+				for _, ord := range []*big.Int{ref.L, twistL} {
+					if _, z := ref.LadderXZ(ord, u); z.Sign() == 0 && u.Sign() != 0 {
+						if found == variant {
+							target, order = u, ord
+						}
+						found++
+						break
+					}
+				}
+			}
+			if target == nil {
+				continue
+			}
+			h := sha512.Sum512([]byte{0xC1, byte(pos), byte(variant)})
+			sc := h[:32]
+			cl := append([]byte{}, sc...)
+			cl[0] &= 248
+			cl[31] &= 127
+			cl[31] |= 64
+			sm := new(big.Int).Mod(ref.LE(cl), order)
+			inv := new(big.Int).ModInverse(sm, order)
+			P := ref.ToLE(ref.Ladder(inv, target), 32)
+			want := ref.ToLE(target, 32)
+			if !bytes.Equal(ref.X25519(sc, P), want) {
+				c.Fail("sparse-output construction: model X25519 does not give the target")
+				return
+			}
+			out, err := X25519(sc, P)
+			c.Step(1)
+			if err != nil || !bytes.Equal(out, want) {
+				c.Violation("C11 generic sparse-output", fmt.Sprintf("X25519(%x, %x): out=%x err=%v; RFC 7748 says %x (non-zero only in byte %d)", sc, P, out, err, want, pos),
+					map[string]interface{}{"scalar": ref.Hex(sc), "point": ref.Hex(P), "expected": ref.Hex(want), "observed": ref.Hex(out), "err": fmt.Sprint(err)})
+			}
+		}
+	}
 	// results are fresh memory: they alias neither an argument nor a later result
 	c.Require("result-fresh")
 	for which := 0; which < 2; which++ {
